@@ -107,6 +107,26 @@ class SeriesTable:
                 return self.canon[k]
         return None
 
+    def expansion(self, key):
+        if not hasattr(self, "_exp"):
+            self._exp = {}
+        if key not in self._exp:
+            self._exp[key] = laurent(self.formula[key]) if key in self.formula else None
+        return self._exp[key]
+
+    def valuation(self, key):
+        L = self.expansion(key)
+        return None if L is None else L.val
+
+    def limit(self, key):
+        """Limit of the formula at x = 0 (None if it has a pole)."""
+        L = self.expansion(key)
+        if L is None:
+            raise FormulaError("unreadable formula %r" % key)
+        if L.val < 0:
+            return None
+        return L.coeff(0)
+
     def describe(self, key):
         for e in self.entries:
             if e.key == key:
@@ -128,6 +148,15 @@ def closed_form(p, table):
         fx = table.formula.get(key)
         if fx is None:
             return None
+        if arg.is_zero():
+            # the argument is the constant 0: the Taylor branch is selected and returns the limit of the formula
+            try:
+                L = table.limit(key)
+            except FormulaError:
+                L = None
+            if L is None:
+                return Poly.atom(Atom("series_pole", (key, squared)))
+            return Poly.const(L)
         xval = cm.un("sqrt", arg) if squared else arg
         xa = X.single_atom()
         return deep_subs(fx, lambda b: xval if b is xa else None)
@@ -136,3 +165,142 @@ def closed_form(p, table):
 
 def closed_mat(M, table):
     return cm.MatVal(M.r, M.c, [[closed_form(p, table) if p.t else p for p in row] for row in M.cells], M.kind)
+
+
+# --------------------------------------------------------------------------- Laurent expansion about x = 0
+# Exact power-series arithmetic over Q, used to know (i) whether a table formula has a removable singularity at 0
+# and (ii) its limit there.  This is computed from the formula source; it is NOT what sympy returns at run time.
+
+ORDER = 10
+
+
+class Laurent:
+    """x^val * (c0 + c1 x + ... ), c0 != 0 unless the series is zero to the working order."""
+
+    def __init__(self, val, coeffs):
+        coeffs = list(coeffs)[:ORDER]
+        while coeffs and coeffs[0] == 0:
+            coeffs.pop(0)
+            val += 1
+        self.val = val if coeffs else 0
+        self.c = coeffs
+
+    def is_zero(self):
+        return not self.c
+
+    def coeff(self, k):
+        i = k - self.val
+        return self.c[i] if 0 <= i < len(self.c) else Fraction(0)
+
+    def __add__(a, b):
+        if a.is_zero():
+            return b
+        if b.is_zero():
+            return a
+        v = min(a.val, b.val)
+        n = ORDER
+        return Laurent(v, [a.coeff(v + i) + b.coeff(v + i) for i in range(n)])
+
+    def __neg__(a):
+        return Laurent(a.val, [-x for x in a.c])
+
+    def __sub__(a, b):
+        return a + (-b)
+
+    def __mul__(a, b):
+        if a.is_zero() or b.is_zero():
+            return Laurent(0, [])
+        out = [Fraction(0)] * ORDER
+        for i, x in enumerate(a.c):
+            for j, y in enumerate(b.c):
+                if i + j < ORDER:
+                    out[i + j] += x * y
+        return Laurent(a.val + b.val, out)
+
+    def scale(a, k):
+        return Laurent(a.val, [x * k for x in a.c])
+
+    def inv(a):
+        if a.is_zero():
+            raise FormulaError("division by a series that vanishes to the working order")
+        b = [Fraction(1) / a.c[0]]
+        for n in range(1, ORDER):
+            s = Fraction(0)
+            for k in range(1, n + 1):
+                if k < len(a.c):
+                    s += a.c[k] * b[n - k]
+            b.append(-s / a.c[0])
+        return Laurent(-a.val, b)
+
+    def pow(a, e):
+        if e < 0:
+            return a.inv().pow(-e)
+        r = Laurent(0, [Fraction(1)])
+        for _ in range(e):
+            r = r * a
+        return r
+
+
+def _compose(coefs, u):
+    """sum_k coefs[k] u^k for a series u with positive valuation."""
+    if not u.is_zero() and u.val <= 0:
+        raise FormulaError("composition with a series that does not vanish at 0")
+    r = Laurent(0, [])
+    p = Laurent(0, [Fraction(1)])
+    for c in coefs:
+        if c != 0:
+            r = r + p.scale(c)
+        p = p * u
+        if p.is_zero():
+            break
+    return r
+
+
+def _fact(n):
+    r = 1
+    for i in range(2, n + 1):
+        r *= i
+    return r
+
+
+_SIN = [Fraction(0) if k % 2 == 0 else Fraction((-1) ** (k // 2), _fact(k)) for k in range(2 * ORDER)]
+_COS = [Fraction(0) if k % 2 == 1 else Fraction((-1) ** (k // 2), _fact(k)) for k in range(2 * ORDER)]
+_ATAN = [Fraction(0) if k % 2 == 0 else Fraction((-1) ** (k // 2), k) for k in range(2 * ORDER)]
+
+
+def laurent(p):
+    """Laurent expansion of a formula value (Poly over the formula atoms) about x = 0."""
+    xa = X.single_atom()
+    total = Laurent(0, [])
+    for m, c in p.t.items():
+        term = Laurent(0, [Fraction(c)])
+        for a, e in m:
+            term = term * laurent_atom(a, xa).pow(e)
+        total = total + term
+    return total
+
+
+def laurent_atom(a, xa):
+    if a is xa:
+        return Laurent(1, [Fraction(1)])
+    if a.kind == "sym":
+        raise FormulaError("free symbol in formula")
+    if a.kind == "recip":
+        return laurent(a.key[0]).inv()
+    u = laurent(a.key[0])
+    if a.kind == "sin":
+        return _compose(_SIN, u)
+    if a.kind == "cos":
+        return _compose(_COS, u)
+    if a.kind == "tan":
+        return _compose(_SIN, u) * _compose(_COS, u).inv()
+    if a.kind == "atan":
+        return _compose(_ATAN, u)
+    raise FormulaError("no series rule for %s" % a.kind)
+
+
+def expansion(table, key):
+    f = table.formula.get(key)
+    if f is None:
+        raise FormulaError("unreadable formula %r" % key)
+    return laurent(f)
